@@ -295,16 +295,16 @@ func damageBody(r C16Req, plain, wire []byte) ([]byte, bool) {
 		if hi <= lo {
 			return wire[:len(wire)/2], true
 		}
-		return wire[:lo+pm(hi-lo)], false // the entity may already be complete before the cut
+		return wire[:lo+pm(hi-lo)], true // a cut stream is broken even if the entity's own bytes are complete
 	case "trunc_trailer":
 		tr := 8
 		if r.Encoding == "deflate" {
 			tr = 4
 		}
 		if len(wire) <= tr {
-			return wire[:len(wire)/2], false
+			return wire[:len(wire)/2], true
 		}
-		return wire[:len(wire)-tr+pm(tr)], false // the payload is complete; only the checksum is cut
+		return wire[:len(wire)-tr+pm(tr)], true // the payload is complete, the checksum is cut: still a broken stream
 	case "bitflip":
 		b := append([]byte{}, wire...)
 		if len(b) > 0 {
